@@ -116,6 +116,37 @@ def run(P, R, tier):
             inh = any(isinstance(x, ast.Assign) and norm(x.value) == 'data._geometry' for x in s.body)
     R.check(inh, 'C20.c', init, None, 'a GeoDataFrame built from a GeoDataFrame inherits its active geometry', 'constructor does not inherit _geometry from a GeoDataFrame input',
             construct='geometry = data._geometry')
+    # ... and nothing decides the geometry before that: the explicit argument first, then the input frame's active geometry, only then defaults
+    # (a "column literally named geometry" convention applied earlier wins over the inherited active column)
+    gparam_ = 'geometry'
+    inh_if = None
+    for s in walk_own(init.node):
+        if isinstance(s, ast.If) and any(isinstance(x, ast.Assign) and norm(x.value) == 'data._geometry' for x in ast.walk(s)):
+            inh_if = s if inh_if is None or s.lineno < inh_if.lineno else inh_if
+    if inh_if is not None:
+        Ci = cfgmod.build(init.node)
+        # climb to the outermost statement of the inheritance (e.g. `if geometry is None:` around it)
+        top = inh_if
+        while getattr(top, '_parent', None) is not None and top._parent is not init.node and isinstance(top._parent, ast.If):
+            top = top._parent
+        early = []
+        for a in walk_own(init.node):
+            if isinstance(a, ast.Assign) and any(isinstance(t, ast.Name) and t.id == gparam_ for t in a.targets) and not any(x is a for x in ast.walk(top)):
+                if Ci.node(a) is not None and Ci.node(top) is not None and Ci.can_reach(Ci.node(a), Ci.node(top)):
+                    early.append(a)
+        R.check(not early, 'C20.c', init, early[0] if early else top, 'the inherited active geometry takes precedence over every default',
+                f'`{norm(early[0]) if early else ""}` chooses a geometry before the active geometry of the input frame is considered: GeoDataFrame(df) (and the final wrap of sjoin) switch to that column',
+                construct='inheritance precedes defaults')
+    # the geo-vs-plain decision of the result hooks looks at the geometry dtype of the blocks (a non-geometry extension column does not make a frame "geo")
+    for cn, mod_ in (('GeoDataFrame', 'spatialpandas.geodataframe'), ('GeoSeries', 'spatialpandas.geoseries')):
+        hk = P.mods[mod_].funcs.get(f'{cn}._constructor_from_mgr')
+        if hk is None:
+            continue
+        tests = [t for t in astq.own_nodes(hk, ast.If) if any(isinstance(x, ast.Return) for x in ast.walk(t))]
+        okt = bool(tests) and 'GeometryDtype' in norm(tests[0].test)
+        R.check(okt, 'C20.c', hk, tests[0].test if tests else None, f'{cn}._constructor_from_mgr decides geo-vs-plain by the presence of a GeometryDtype block',
+                f'{cn}._constructor_from_mgr decides by `{norm(tests[0].test) if tests else ""}`: a result without any geometry column (but e.g. a categorical one) is returned as a geo object without geometry',
+                construct=f'{cn}: geo-vs-plain by GeometryDtype')
     sets = [c for c in astq.own_calls(init) if isinstance(c.func, ast.Attribute) and c.func.attr == 'set_geometry']
     R.check(bool(sets), 'C20.c', init, sets[0] if sets else None, 'constructor applies the chosen geometry through set_geometry (validated)',
             'constructor does not set the chosen geometry', nontrivial=False)
@@ -225,6 +256,24 @@ def run(P, R, tier):
     okmeta = any(isinstance(c.func, ast.Attribute) and c.func.attr == 'set_geometry' and _is_meta(c.func.value) for c in astq.own_calls(prd))
     R.check(okmeta, 'C20.d', prd, None, 'the meta frame gets the requested geometry too', 'the meta frame does not get the requested geometry', construct='meta = meta.set_geometry(geometry)', nontrivial=False)
 
+    # task keys: a `dask_key_name=` given to a delayed read names the task; dask runs ONE task per name, so every argument that changes what the task
+    # returns must be part of the name -- the geometry= choice in particular (S10)
+    for g_ in [prd] + list(prd.nested.values()):
+        for c_ in astq.own_calls(g_):
+            kn = astq.arg_of(c_, kw='dask_key_name')
+            if kn is None:
+                continue
+            named = astq.sources(g_, kn)
+            for sub_ in ast.walk(astq.expand(g_, kn)):
+                if isinstance(sub_, ast.Name):
+                    named.add(sub_.id)
+            others = set()
+            for a_ in list(c_.args) + [k_.value for k_ in c_.keywords if k_.arg not in ('dask_key_name', 'filesystem', 'pure', 'name')]:
+                others |= {n_ for n_ in astq.names_in(a_)}
+            missing = sorted(n_ for n_ in others if n_ not in named and n_ not in ('filesystem', 'np', 'pd'))
+            R.check(not missing, 'C20.d', g_, c_, 'the task name covers every argument of the task',
+                    f'`dask_key_name={norm(kn)}` does not depend on {missing}: two reads that differ only in {missing} get identically named tasks, dask runs one of them for both, '
+                    'and the second frame\'s partitions use the other read\'s active geometry while its meta advertises its own', construct='task name covers the task arguments')
     from rules import C12
     sub = type(R)(R.prop, R.tier)
     try:
